@@ -846,7 +846,9 @@ func ruleStepOverflow(c *Ctx) *RuleResult {
 					if viaCall {
 						r.undecided(key, pos, fname(fn), "an index handed to a function is advanced by a variable step in a loop whose bound test is not a direct comparison: overflow guard not decided")
 					} else {
-						r.viol(key, pos, fname(fn), "a slice index is advanced by a variable step in a loop without a recognisable bound test")
+						// (a loop whose exit test is not a single comparison of the index with
+						// a bound — fused directions, a compound condition: nothing is known about it)
+						r.undecided(key, pos, fname(fn), "a slice index is advanced by a variable step in a loop whose exit test is not a single comparison with a bound: overflow guard not decided")
 					}
 					continue
 				}
